@@ -5,6 +5,7 @@ package main
 
 import (
 	"fmt"
+	"math/big"
 	"runtime"
 	"go/types"
 	"sort"
@@ -38,6 +39,7 @@ type goPanicT struct {
 }
 
 type Nondet struct {
+	Prefer []*Term // soft constraints for counterexample models (natural values that a native replay can reach)
 	Name string
 	Kind string // int64,uint64,bool,byte,blob,str,big,choose,node...
 	Term *Term
@@ -616,7 +618,17 @@ func (e *Engine) extractModel(extra []*Term) map[string]interface{} {
 		s.cnt = len(terms) - s.idx
 		slots = append(slots, s)
 	}
-	r, vals := e.solver.CheckInc(e.pc, append(append([]*Term{}, extra...), small...), terms)
+	var prefer []*Term
+	for _, nd := range e.nondets {
+		prefer = append(prefer, nd.Prefer...)
+	}
+	r, vals := rUnknown, []*big.Int(nil)
+	if len(prefer) > 0 {
+		r, vals = e.solver.CheckInc(e.pc, append(append(append([]*Term{}, extra...), small...), prefer...), terms)
+	}
+	if r != rSat {
+		r, vals = e.solver.CheckInc(e.pc, append(append([]*Term{}, extra...), small...), terms)
+	}
 	if r != rSat {
 		r, vals = e.solver.CheckInc(e.pc, extra, terms)
 	}
